@@ -257,7 +257,12 @@ func (r *Reader) initFields() error {
 			r.m[ent.Name] = ent
 		}
 		if ent.Type == "reg" && ent.ChunkSize > 0 && ent.ChunkSize < ent.Size {
-			r.chunks[ent.Name] = make([]*TOCEntry, 0, ent.Size/ent.ChunkSize+1)
+			// A file cannot have more chunks than the TOC has entries.
+			nchunks := int64(len(r.toc.Entries))
+			if n := ent.Size / ent.ChunkSize; n < nchunks {
+				nchunks = n + 1
+			}
+			r.chunks[ent.Name] = make([]*TOCEntry, 0, nchunks)
 			r.chunks[ent.Name] = append(r.chunks[ent.Name], ent)
 		}
 		if ent.ChunkSize == 0 && ent.Size != 0 {
